@@ -16,7 +16,8 @@ CONSTANTS Fams,                 \* family names explored by this configuration
           DEV_MoveNoRebuild,    \* translate_rotate keeps the tree of the old polygons (defect fixed in 0df4737)
           DEV_CopyMisMaps,      \* deepcopy keeps the id(polygon) -> lanelet id map of the ORIGINAL: wrong ids
           DEV_PickleNoRebuild,  \* __setstate__ without _create_strtree: nothing is indexed
-          DEV_AddRebuildsFirst  \* add_lanelet rebuilds the tree BEFORE inserting: the last lanelet is missing
+          DEV_AddRebuildsFirst, \* add_lanelet rebuilds the tree BEFORE inserting: the last lanelet is missing
+          DEV_DiscHalfRadius    \* lookups by shape use the exported disc of radius r/2 (Circle.shapely_object = buffer(radius / 2))
 
 VARIABLES fam, polys, index, mode, hist
 vars == <<fam, polys, index, mode, hist>>
@@ -58,14 +59,14 @@ AddLanelet     == /\ mode \in {"add_each", "add_defer"}
                         /\ IF last THEN Ready(<<Rt(mode, <<>>)>>) ELSE UNCHANGED <<mode, hist>>
                   /\ UNCHANGED fam
 More == mode = "ready" /\ Len(hist) < MaxRoutes
-Same(r, ix)    == More /\ polys' = polys /\ index' = ix /\ hist' = Append(hist, Rt(r, <<>>)) /\ UNCHANGED <<fam, mode>>
-DeepCopy       == Same("deepcopy", IF DEV_CopyMisMaps THEN Shift(polys) ELSE polys)
-DeepCopyOrig   == Same("deepcopy_orig", polys)                  \* the ORIGINAL after it has been copied (its tree is reset and restored)
-Pickle         == Same("pickle", IF DEV_PickleNoRebuild THEN Empty ELSE polys)
-ReadXml        == Same("xml", polys)
-ReadPb         == Same("pb", polys)
-ReadXmlNet     == Same("xml_net", polys)                        \* CommonRoadFileReader.open_lanelet_network
-ReadPbNet      == Same("pb_net", polys)
+Log(r)         == hist' = Append(hist, Rt(r, <<>>)) /\ UNCHANGED <<fam, mode>>
+DeepCopy       == More /\ polys' = polys /\ index' = (IF DEV_CopyMisMaps THEN Shift(polys) ELSE polys) /\ Log("deepcopy")
+DeepCopyOrig   == More /\ polys' = polys /\ index' = polys /\ Log("deepcopy_orig")   \* the ORIGINAL after it has been copied (tree reset and restored)
+Pickle         == More /\ polys' = polys /\ index' = (IF DEV_PickleNoRebuild THEN Empty ELSE polys) /\ Log("pickle")
+ReadXml        == More /\ polys' = polys /\ index' = polys /\ Log("xml")
+ReadPb         == More /\ polys' = polys /\ index' = polys /\ Log("pb")
+ReadXmlNet     == More /\ polys' = polys /\ index' = polys /\ Log("xml_net")         \* CommonRoadFileReader.open_lanelet_network
+ReadPbNet      == More /\ polys' = polys /\ index' = polys /\ Log("pb_net")
 FromNetwork(c) == /\ More
                   /\ LET keep == {i \in DOMAIN polys : ShapeRel(polys[i], Cuts[c], FALSE) = "T"} IN
                      keep # {} /\ polys' = Restrict(polys, keep) /\ index' = polys'
@@ -87,17 +88,19 @@ Spec == Init /\ [][Next]_vars
 
 (* ---------------- the contract ---------------- *)
 Lookup(ix, p)      == {i \in DOMAIN ix : InPoly(ix[i], p)}
-LookupShape(ix, s) == {i \in DOMAIN ix : ShapeRel(ix[i], s, FALSE) = "T"}
+LookupShape(ix, s) == {i \in DOMAIN ix : ShapeRelH(ix[i], s, FALSE, IF DEV_DiscHalfRadius THEN 4 ELSE 1) = "T"}
 AsNet(g) == LET ids == SX!SetToSortSeq(DOMAIN g, <) IN [k \in DOMAIN ids |-> [id |-> ids[k], v |-> g[ids[k]]]]
 ProbePts == {<<x, y>> : x \in {-1, 0, 2, 3, 4, 7}, y \in {0, 1, 2, 4, 5}}
 ProbeShapes == {[k |-> "rect", c |-> <<5, 3>>, l |-> 1, w |-> 1, rot |-> Id],
                 [k |-> "rect", c |-> <<4, 2>>, l |-> 2, w |-> 1, rot |-> <<0, 1, 1>>],
                 [k |-> "rect", c |-> <<-7, 1>>, l |-> 5, w |-> 5, rot |-> <<3, 4, 5>>],          \* corner (0,2) touches x = 0
                 [k |-> "disc", c |-> <<9, 5>>, r |-> 2],
+                [k |-> "disc", c |-> <<4, -3>>, r |-> 4],                                       \* 0.75 r below y = 0
                 [k |-> "poly", v |-> <<<<6, 6>>, <<10, 6>>, <<6, 10>>>>]}
 IndexMirrors == mode = "ready" => index = polys
-QueriesExact == mode = "ready" => /\ \A p \in ProbePts : Lookup(index, p) = ByPosition(AsNet(polys), p)
-                                  /\ \A s \in ProbeShapes : LookupShape(index, s) = ByShape(AsNet(polys), s)
+QueriesExact == mode = "ready" => LET N == AsNet(polys) IN
+                                  /\ \A p \in ProbePts : Lookup(index, p) = ByPosition(N, p)
+                                  /\ \A s \in ProbeShapes : LookupShape(index, s) = ByShape(N, s)
 TypeOK == mode \in {"new", "add_each", "add_defer", "ready"} /\ UniqueIds(FamNet(fam))
 
 (* laws of the functional core, evaluated on the rings / probe sets of the current state *)
@@ -108,9 +111,9 @@ LawsPoint == Shallow => \A i \in DOMAIN polys : \A p \in ProbePts :
 LawsRect  == mode = "new" => \A s \in {t \in ProbeShapes : t.k = "rect"} :
                                 \A p \in {<<s.c[1] + dx, s.c[2] + dy>> : dx \in -9..9, dy \in -9..9} : LawRectRing(s, p)
 LawsPoly  == Shallow => \A i, j \in DOMAIN polys : LawMeetSym(polys[i], polys[j]) /\ LawStrongMeet(polys[i], polys[j])
-LawsMove  == Shallow =>
-                \A m \in Motions : /\ \A p \in ProbePts : LawMotion(m, AsNet(polys), p)
-                                   /\ \A s \in ProbeShapes : LawMotionShape(m, AsNet(polys), s)
+LawsMove  == Shallow => LET N == AsNet(polys) IN
+                \A m \in Motions : /\ \A p \in ProbePts : LawMotion(m, N, p)
+                                   /\ \A s \in ProbeShapes : LawMotionShape(m, N, s)
 LawsDisc  == mode = "new" => \A r \in {2, 4, 8, 20} : \A p \in {<<x, y>> : x \in -22..22, y \in {-21, -16, -8, -4, -3, 0, 1, 2, 5, 12, 20}} :
                 LawDiscExport([k |-> "disc", c |-> <<0, 0>>, r |-> r], p)
 ASSUME LawRots == \A r \in Rots : IsRot(r)
